@@ -626,7 +626,7 @@ func checkPublicClassPlaintext(c *Ctx, rule string) {
 			}
 		}
 	}
-	c.Floor(rule, "extended keys sealed under the public crypto key", n, 5)
+	c.Floor(rule, "extended keys sealed under the public crypto key", n, 3)
 }
 
 // checkSnaclErrors: inside snacl every error result (scrypt.Key rejecting its parameters, a short read
